@@ -15,8 +15,10 @@ PROPS = {
     "C06": "analysis.props.p_c06",
     "C08": "analysis.props.p_c08",
     "C09": "analysis.props.p_c09",
+    "C10": "analysis.props.p_c10",
     "C11": "analysis.props.p_c11",
     "C12": "analysis.props.p_c12",
+    "C13": "analysis.props.p_c13",
     "C15": "analysis.props.p_c15",
     "C16": "analysis.props.p_c16",
     "C18": "analysis.props.p_c18",
